@@ -17,7 +17,7 @@
 From Coq Require Import List.
 From Algo.Grammar Require Import CFG.
 From Algo.C08 Require Import Model Spec ProofsBase ProofsLang1 ProofsLang2 ProofsLang3 ProofsLang4 ProofsLF ProofsELR Names NamesProofs.
-From Algo.C09 Require Import Model Concrete Proofs ProofsCNF ProofsVerify ProofsCycles ProofsELR.
+From Algo.C09 Require Import Model Concrete Proofs ProofsCNF ProofsVerify ProofsCycles ProofsELR ProofsCheckers ProofsLRSound.
 Import ListNotations.
 
 Section C09.
@@ -139,6 +139,46 @@ Section C09.
     exact (proj2 (ok_or_names_ok _ _ _ (left_factor_total teqb neqb fresh teqb_spec neqb_spec fresh_spec G (valid_wf G HG)) H)).
   Qed.
 
+  (** the graph checkers are sound for the derivation semantics of Algo.Grammar.CFG:
+      [derivesN G (S n) u v] is a derivation u => ... => v of n+1 steps *)
+  Theorem C09_no_left_recursion_sound : forall G : gram, no_left_recursion neqb G = true ->
+    forall A α n, ~ derivesN G (S n) [Nt A] (Nt A :: α).
+  Proof. exact (no_left_recursion_sound neqb neqb_spec). Qed.
+
+  Theorem C09_no_cycle_sound : forall G : gram, no_cycle neqb G = true ->
+    forall A n, ~ derivesN G (S n) [Nt A] [Nt A].
+  Proof. exact (no_cycle_sound neqb neqb_spec). Qed.
+
+  (** hence, semantically: after EliminateLeftRecursion no A =>+ A α, after EliminateCycles no A =>+ A *)
+  Theorem C09_left_recursion_semantic : forall (order : gram -> list N) (G G' : gram), valid G ->
+    (forall G1, NoDup (order G1) /\ forall A, In A (nonterms G1) <-> In A (order G1)) ->
+    left_recursion_elim teqb neqb fresh order G = Ok G' ->
+    forall A α n, ~ derivesN G' (S n) [Nt A] (Nt A :: α).
+  Proof.
+    intros order G G' HG Hord H. apply (no_left_recursion_sound neqb neqb_spec).
+    exact (elr_post teqb neqb fresh teqb_spec neqb_spec fresh_spec order G G' (valid_wf G HG) Hord H).
+  Qed.
+
+  Theorem C09_cycles_semantic : forall G G' : gram, valid G -> cycles_elim teqb neqb fresh G = Ok G' ->
+    forall A n, ~ derivesN G' (S n) [Nt A] [Nt A].
+  Proof.
+    intros G G' HG H. apply (no_cycle_sound neqb neqb_spec).
+    exact (cycles_post teqb neqb fresh teqb_spec neqb_spec fresh_spec G G' (valid_wf G HG) H).
+  Qed.
+
+  Theorem C09_no_empty_correct : forall G : gram,
+    no_empty_except_fresh_start teqb neqb G = true <->
+    forall p, In p (prods G) -> body p = [] ->
+      head p = start G /\ forall q, In q (prods G) -> ~ In (Nt (start G)) (body q).
+  Proof. exact (no_empty_spec teqb neqb teqb_spec neqb_spec). Qed.
+
+  Theorem C09_all_reachable_correct : forall G : gram,
+    all_reachable teqb neqb G = true <->
+    (forall A, In A (nonterms G) -> reachable (prods G) [start G] A) /\
+    (forall p, In p (prods G) -> reachable (prods G) [start G] (head p)) /\
+    (forall t, In t (terms G) -> exists p, In p (prods G) /\ In (Tm t) (body p)).
+  Proof. exact (all_reachable_spec teqb neqb teqb_spec neqb_spec). Qed.
+
   (** [left_factored]: no two different alternatives of a head begin with the same symbol *)
   Theorem C09_left_factored_correct : forall G : gram,
     left_factored teqb neqb G = true <->
@@ -199,5 +239,11 @@ Print Assumptions C09_cycles_post.
 Print Assumptions C09_left_factored_correct.
 Print Assumptions C09_left_recursion_post.
 Print Assumptions C09_left_factor_symbols.
+Print Assumptions C09_no_left_recursion_sound.
+Print Assumptions C09_no_cycle_sound.
+Print Assumptions C09_left_recursion_semantic.
+Print Assumptions C09_cycles_semantic.
+Print Assumptions C09_no_empty_correct.
+Print Assumptions C09_all_reachable_correct.
 Print Assumptions C09_left_factor_post_refuted.
 Print Assumptions C09_del_verify_refuted.
